@@ -21,9 +21,10 @@ ROOTS = [
     ("acceptor", "after_integrity_drop"),
     ("acceptor", "connected_app_sends_when_active"), ("initiator", "logon_sent_app_sends_when_active"),
     ("acceptor", "connected_app_disconnects_on_logon"), ("initiator", "logon_sent_app_disconnects_on_logon"),
+    ("acceptor", "reconnected_after_drop_with_unread_bytes"),
 ]
 CLASSES = ("logon", "hb", "tr", "rr", "gf", "rs", "logout", "app", "custom")
-DEFECTS = ("ok_at", "ok_above", "low", "low_pd", "bs", "no49", "no56", "bad49", "bad56", "swapped", "no34", "no108", "no98")
+DEFECTS = ("ok_at", "ok_above", "low", "low_pd", "bs", "no49", "no56", "bad49", "bad56", "swapped", "no34", "no108", "no98", "bad34", "dup34", "dup49", "dup108")
 SENDS = ("app", "hb", "tr_api", "logon", "logout", "rr")
 GROUP = {"logon": "logon", "logout": "logout", "app": "app", "custom": "app",
          "hb": "session", "tr": "session", "rr": "session", "gf": "seqreset", "rs": "seqreset"}
@@ -41,6 +42,7 @@ def stimuli():
     out.append(("oserr",))
     out.append(("tick", 100))
     out.append(("appdisc_eof",))
+    out.append(("second_connect",))
     return out
 
 
@@ -56,6 +58,13 @@ def build_root(role, name):
         w.c.disconnect_on_logon = True
     w.connect()
     mon["ever_connected"] = True
+    if name == "reconnected_after_drop_with_unread_bytes":
+        # connection 1: one read brings a frame that drops the connection (first message is not a Logon) followed by a
+        # Logon that is never looked at; connection 2 is a NEW transport connection: nothing of connection 1 belongs to it
+        w.feed(refs.frame("0", 1, T, S) + refs.frame("A", 2, T, S, [(98, 0), (108, 30)]))
+        w.advance(1.0)
+        w.connect()
+        return w, mon
     if name in ("connected", "connected_no_logon", "logon_sent") or name.endswith("app_sends_when_active") or name.endswith("app_disconnects_on_logon"):
         return w, mon
     w.logon()
@@ -87,8 +96,8 @@ def make_frame(w, cls, defect):
     n = {"ok_at": E, "ok_above": E + 2, "low": E - 1, "low_pd": E - 1}.get(defect, E)
     if n < 1:
         return None
-    if defect in ("no108", "no98") and cls != "logon":
-        return None  # a Logon that lacks a required body field: header intact, number expected
+    if defect in ("no108", "no98", "dup108") and cls != "logon":
+        return None  # a Logon that lacks / repeats a required body field: header intact, number expected
     sender, target = T, S
     begin = b"FIX.4.4"
     if defect == "bs":
@@ -105,6 +114,12 @@ def make_frame(w, cls, defect):
         sender, target = S, T
     seq = None if defect == "no34" else n
     extra = [(43, "Y"), (122, "20240101-00:00:00.000")] if defect == "low_pd" else []
+    if defect == "bad34":
+        seq = "abc"  # present but not a number
+    if defect == "dup34":
+        extra = [(34, n)]  # MsgSeqNum twice
+    if defect == "dup49":
+        extra = [(49, "EVIL")]  # SenderCompID twice, one of them wrong
     body = {
         "logon": [(98, 0), (108, 30)], "hb": [], "tr": [(112, "T1")], "rr": [(7, 1), (16, 0)],
         "gf": [(123, "Y"), (36, n + 1)], "rs": [(36, n + 1)], "logout": [], "app": [(11, "A1"), (55, "X")],
@@ -114,6 +129,8 @@ def make_frame(w, cls, defect):
         body = [(98, 0)]
     if defect == "no98":
         body = [(108, 30)]
+    if defect == "dup108":
+        body = [(98, 0), (108, 30), (108, 30)]
     mt = {"logon": "A", "hb": "0", "tr": "1", "rr": "2", "gf": "4", "rs": "4", "logout": "5", "app": "D", "custom": "U1"}[cls]
     return refs.frame(mt, seq, sender, target, body, extra_header=extra, begin=begin)
 
@@ -170,6 +187,29 @@ def apply(w, mon, stim, rootname, role):
         w.run()
     elif kind == "tick":
         w.advance(stim[1])
+    elif kind == "second_connect":
+        # a second transport connection arrives at a single-connection acceptor while the first one is alive
+        if role != "acceptor" or w.reader is None or w.writer is None or b["dead"]:
+            return "skip"
+        from mc.world import FakeReader, FakeWriter
+        srv = w.net.servers.get(1)
+        if srv is None:
+            return "skip"
+        r2, w2 = FakeReader(), FakeWriter("second")
+        w2.own_reader = r2
+        old_writer = w.writer
+        w.loop.create_task(srv.cb(r2, w2))
+        w.run()
+        a = snap(w)
+        det = {"root": [role, rootname], "stimulus": stim, "before": b, "after": a, "second_closed": w2.closed}
+        same = all(a[k] == b[k] for k in ("state", "E", "O", "nmsg", "nlogon", "nlogout", "ndisc", "nev"))
+        from mc.world import writer_of
+        if not same or writer_of(c) is not old_writer or old_writer.closed:
+            return ("second_connection_disturbs_session", f"{b['state']}:second_connect",
+                    "after any disconnect the connection ... reports the disconnect exactly once (a session does not end without it)", det)
+        if not w2.closed:
+            return ("second_connection_not_refused", f"{b['state']}:second_connect", "single-connection acceptor refuses a second connection", det)
+        return None
     elif kind == "appdisc_eof":
         # the application ends the session with a Logout while the transport is congested (drain() parks);
         # meanwhile the peer closes: the read task sees EOF.  Then the congestion ends.
@@ -251,7 +291,8 @@ def apply(w, mon, stim, rootname, role):
     cls, defect = stim[1], stim[2]
     g = GROUP[cls]
     dg = {"no49": "missing_compid", "no56": "missing_compid", "bad49": "wrong_compid", "bad56": "wrong_compid",
-          "swapped": "wrong_compid"}.get(defect, defect)
+          "swapped": "wrong_compid", "bad34": "unusable_header_field", "dup34": "unusable_header_field",
+          "dup49": "unusable_header_field"}.get(defect, defect)
     delivered = a["nmsg"] - b["nmsg"]
     logons = a["nlogon"] - b["nlogon"]
     if a["dead"] and a["ndisc"] - b["ndisc"] != 1:
@@ -262,7 +303,7 @@ def apply(w, mon, stim, rootname, role):
         if delivered or logons or written or a["E"] != b["E"] or a["state"] != b["state"]:
             return V("wrong_beginstring_not_discarded", g, "frames with a wrong BeginString are discarded")
         return None
-    integrity = defect in ("no49", "no56", "bad49", "bad56", "swapped", "no34")
+    integrity = defect in ("no49", "no56", "bad49", "bad56", "swapped", "no34", "bad34", "dup34", "dup49")
     low = defect in ("low", "low_pd")
     low_strict = defect == "low" and g not in ("seqreset",) and b["state"] != "RESENDREQ_AWAITING"
     if integrity or low:
@@ -281,6 +322,8 @@ def apply(w, mon, stim, rootname, role):
             return V("integrity_defect_not_disconnected", f"{dg}:{g}", "leave the connection disconnected")
         if any(t != "5" for t in wtypes) or len(wtypes) > 1:
             return V("integrity_defect_reply_frames", f"{dg}:{g}", "leave the connection disconnected (after a Logout stating the reason)")
+        if defect in ("bad34", "dup34", "dup49"):
+            return None  # Logout text not demanded for unusable (as opposed to missing / wrong) header fields
         if defect in ("no34", "low") and mon["logon_done"]:
             if wtypes != ["5"] or not written[0].get("58"):
                 return V("integrity_defect_no_logout_reason", f"{dg}:{g}", "after a Logout stating the reason when the counterparty is identifiable")
